@@ -6,7 +6,9 @@ space, survive copying, and are handed to the tokens that macro expansion
 creates; plus the expansion boundaries (R19.3) and, R19.4, the printer's separation decision evaluated against
 tokenize() itself on a complete table of pairs of token spellings (sa/lib_c19.py); R19.5: the pair predicate of the
 printer is asked about the token written immediately before, at every position of the output; R19.6: the clauses of
-C09 (R09.15/R09.18) on the white space around an invocation and of tokens that are merely passed on, re-issued.
+C09 (R09.15/R09.18) on the white space around an invocation and of tokens that are merely passed on, re-issued;
+R19.7: the -E text reads back as itself through the text phases of tokenize_file() (sa/lib_c19rb.py): texts the preprocessor
+spells and tokenises itself (quoted strings, -D bodies) are fixed by them, and the phases are idempotent.
 """
 from ..interp import NoReturn, Infeasible, NeedChoice, Ctx, Interp, Obj, Sym, View, Cell, Term, Arr, VarPlace, ElemPlace, _Ref, _Continue, _Break, _Return, is_opaque
 from ..build import AnalysisBroken
@@ -14,6 +16,7 @@ from ..lib_c09 import PInterp, Agg, as_obj, chain, mk_tokens, mk_hideset, strip_
 from ..lib_c09x import (Desc, show, explore_expand, explore_subst, SubstPath, explore_subst_shared, explore_skip_arms, cut_new_token_flags,
                         creator_summaries, describe_flag, CREATORS, FRESH)
 from ..lib_c19 import run_table, describe_pair, format_items
+from .. import lib_c19rb as RB
 
 PU = 'preprocess.c'
 TU = 'tokenize.c'
@@ -30,6 +33,8 @@ def run(P, rep, tier):
                        'neither the printer nor the splices protect expansion boundaries. R19.5 follows which two tokens the printer\'s pair predicate is asked about '
                        '(the token being written and the one written just before it, on paths over three abstract tokens); R19.6 re-issues C09\'s rules on whose white space '
                        'an expansion takes (the macro name\'s, also when it expands to nothing) and on tokens that are passed on, collected or spliced unchanged. '
+                       'R19.7 interprets tokenize_file() and the text producers of preprocess.c (new_str_token, define_macro) on concrete strings up to their call of tokenize(): '
+                       'what the preprocessor spells itself must be left alone by line splicing / \\u decoding when the -E text is read again, and those phases must be idempotent. '
                        'Not decided: that no adjacent pair of spellings fuses.')
     rep.assumptions += ['tokenize() gives the first token of a buffer at_bol=true/has_space=false (checked on the empty buffer and by the fresh-token wiring obligations)',
                         'loops over token lists are analysed for 0..2 generic iterations (print_tokens: 0..3)', 'clang 14 typed AST']
@@ -51,6 +56,67 @@ def run(P, rep, tier):
     part('R19.6', 'preprocess.c:expand_macro', lambda: r_invocation_white_space(P, rep))
     part('R19.2', 'preprocess.c:subst', lambda: r_subst(P, rep, protect))
     part('R19.2', 'preprocess.c:subst', lambda: r_subst_repeat(P, rep))
+    part('R19.7', 'tokenize.c:tokenize_file', lambda: r_readback(P, rep))
+
+
+# -------------------------------------------------------------------- read-back ---
+def r_readback(P, rep):
+    """the -E text is compiled (or preprocessed) again through tokenize_file(), which rewrites the text before it is
+    tokenised (line ends, line splicing, \\uXXXX).  Spellings that come from a source file have been rewritten once already;
+    spellings the preprocessor makes itself (quoted strings for __FILE__ and #, -D bodies) have not.  Decided on concrete
+    texts, by interpreting tokenize_file() and the text producers of preprocess.c up to their call of tokenize()."""
+    rep.rule('R19.7', 'the -E text reads back as itself: (a) a text that a function of preprocess.c makes from a string it is given and tokenises itself (new_str_token: the quoted string of __FILE__/__BASE_FILE__/__TIMESTAMP__ and of the # operator; define_macro: a -D body) - whose spellings -E prints without their ever having passed the text phases of tokenize_file() - is left unchanged by those phases (line-end canonicalisation, line splicing, universal-character-name decoding), for strings that contain \\uXXXX / \\UXXXXXXXX, an escaped backslash followed by u/U and hex digits, or a quote; (b) the phases are idempotent: applied to their own result (the spelling of a token that came from a file, printed and read again) they change nothing', floor=18)
+    rep.assumptions += ['R19.7 is decided on a table of concrete texts (one per kind of character sequence the text phases of tokenize_file look for), not for all texts; texts with line ends inside a -D body or a file name are not considered; universal character names below U+0080 are not in the table']
+    rb = RB.ReadBack(P)
+    tu, pu = P.unit(TU), P.unit(PU)
+    wt = '%s:%d' % (TU, tu.fn('tokenize_file').line)
+    show_ = lambda b: b.decode('utf-8', 'replace')
+    # (b) idempotence
+    for cls, x in RB.FILE_TEXTS:
+        key = '%s:tokenize_file:text-phases-idempotent:%s' % (TU, cls)
+        try:
+            y = rb.phases(x)
+            z = rb.phases(y)
+        except (AnalysisBroken, Infeasible) as e:
+            rep.undecided('R19.7', key, 'tokenize_file cannot be followed on the concrete text %r: %s' % (x, e), where=wt)
+            continue
+        rep.ob('R19.7', key, z == y,
+               'the source text %r reaches the tokenizer as %r; -E prints these spellings, and when that output is read again tokenize_file turns them into %r: the -E output is not a fixed point and denotes other tokens than the compiler proper consumed' % (show_(x), show_(y), show_(z)),
+               where=wt, facts={'text': show_(x), 'once': show_(y), 'twice': show_(z)})
+    # (a) self-spelled texts
+    pr = RB.Producer(P)
+    prods = RB.producers(P)
+    nsrc = 0
+    for fname, idx in prods:
+        wf = '%s:%d' % (PU, pu.fn(fname).line)
+        flowing = []
+        for i in idx:
+            try:
+                plain = pr.produced(fname, i, b'x+1')
+            except (AnalysisBroken, Infeasible) as e:
+                rep.undecided('R19.7', '%s:%s:tokenised-text-not-followed' % (PU, fname), '%s() cannot be followed up to its call of tokenize() on a concrete string: %s' % (fname, e), where=wf)
+                flowing = None
+                break
+            if any(b'x+1' in t for t in plain):
+                flowing.append(i)       # (the other string parameters are not what is tokenised: a macro name, a file name)
+        if not flowing:
+            continue
+        nsrc += 1
+        for cls, raw in RB.RAW:
+            key = '%s:%s:tokenised-text-reads-back-unchanged:%s' % (PU, fname, cls)
+            try:
+                texts = sorted(set(t for i in flowing for t in pr.produced(fname, i, raw)))
+                back = [(t, rb.phases(t + b'\n')) for t in texts]
+            except (AnalysisBroken, Infeasible) as e:
+                rep.undecided('R19.7', key, 'the text %s() tokenises for the string %r, or what tokenize_file makes of it, cannot be followed: %s' % (fname, raw, e), where=wf)
+                continue
+            bad = [(t, b) for t, b in back if b != t + b'\n']
+            rep.ob('R19.7', key, not bad,
+                   '%s() tokenises the text %s for the string %s without the text phases of tokenize_file; -E prints that spelling, and tokenize_file reads it back as %s: the -E output denotes another token (another string value / identifier) than the one the compiler proper consumed, and preprocessing it again gives another text' % (
+                       fname, bad and repr(show_(bad[0][0])), repr(show_(raw)), bad and repr(show_(bad[0][1].rstrip(b'\n')))),
+                   where=wf, facts={'string': show_(raw), 'tokenised': [show_(t) for t in texts], 'read back as': [show_(b.rstrip(b'\n')) for _, b in back]})
+    if nsrc < 2:
+        rep.undecided('R19.7', '%s:text-producers' % PU, 'fewer than two functions of preprocess.c are seen to tokenise a text made from a string parameter (found: %s): the producers of self-spelled tokens (new_str_token, define_macro) are not recognised' % ', '.join(f for f, _ in prods), where=wt)
 
 
 # ---------------------------------------------------------------------- printer ---
